@@ -51,9 +51,26 @@ NOTES = {
  'C12-ewma-smoothing-one-shortcut': 'EWMA with smoothing constant exactly 1.0 and a repeated timestamp (0^0)',
  'C16-to-dyn-arc-variants-dangle': '`to_dyn!` on an Arc-backed Reference (previously refused) returns a handle that does not keep the target alive',
  'C17-arcmutex-sole-owner-fast-path': 'ArcMutex borrow_mut skips the lock when it is the sole strong owner; another thread upgrades a Weak meanwhile',
+ 'C03-exponent-square-fast-path-stamp': 'ExponentStream with exponent exactly 2.0 stamped newer than the base (fast path `base * base` keeps the base stamp)',
+ 'C05-freeze-ignores-earlier-stamped-input': 'FreezeStream, condition false, holding a present datum, input returns a datum stamped strictly EARLIER',
+ 'C08-geartrain-meshing-fast-path-skips-acceleration': 'gear train with both sides informed whose position and velocity already mesh bit-for-bit while the accelerations do not',
+ 'C10-integral-halves-integer-interval': 'IntegralStream: an ODD number of nanoseconds between two samples (interval halved as an integer), visible for short intervals',
+ 'C11-set-epsilon-tolerance-on-command': 'CommandPID.set with the same kind and a value less than f32::EPSILON away from the current one (only possible below magnitude 1)',
+ 'C13-geartrain-early-return-skips-relay': 'gear train updated while only side 2 has a STATE: the command relay below the early return is skipped for that update',
+ 'C15-follow-writeback-overwrites-reentrant-change': 'a settable whose impl_set itself calls stop_following / follow(other) during a forwarded update',
+ 'C20-pid-wrapper-resets-when-terminal-sees-nothing': 'PID wrapper whose terminal sees nothing AFTER having seen data (link cut mid-run), then more updates or a reconnect',
  'C19-libm-powf-whole-exponent-squaring': 'no_std+libm only: powf with a whole-number exponent by repeated squaring (dozens of ulps for large |n|, 0 for subnormal results)',
 }
 HISTORY = {
+ 'C15-follow-writeback-overwrites-reentrant-change': 'MISSED at both tiers: every operation of the settable world was issued from outside an update, and the '
+   'user motor only recorded / rejected. The motor can now be armed (op MRE) to call stop_following, follow(alternative) or follow(primary) from inside '
+   'its next impl_set - re-entrancy as one more injected event; the model applies the change at the moment the forwarded set reaches impl_set. Caught at '
+   'quick tier since.',
+ 'C20-pid-wrapper-resets-when-terminal-sees-nothing': 'MISSED at both tiers: the wrapper runs kept their wiring for the whole run, so "the terminal sees nothing" '
+   'only happened before the first data. A third of the C20 runs now cut the wrapper\'s link for a few rounds and restore it (partition / heal); the twin is '
+   'simply not fed during the gap. Caught at quick tier since.',
+ 'C11-set-epsilon-tolerance-on-command': 'caught by C11/thorough (through a NaN command) but MISSED by C11/quick: new command values were unrelated to the current one. '
+   'set() and followed-command changes now use the neighbouring float (1..3 ulps, or a tiny value next to 0) in 30 % / 12 % of the cases. Caught at quick tier since.',
  'C02-expirer-deadline-overflow': 'MISSED at both tiers: expiry limits were at most 5 s and expirers were excluded from the extreme-timestamp runs (the age '
    '`now - stamp` itself overflows there). A quarter of the runs containing an expirer now use a huge limit (i64::MAX, i64::MAX - 1, i64::MAX/2 + 10, 2^62) with '
    'non-negative stamps and clocks, where the age is representable but `stamp + limit` is not. Caught at quick tier since.',
